@@ -2,8 +2,9 @@
 C03W — the closed-world "no lost wake-up" invariant: definitions.
 
 * `SC w`      : the (decidable) static scope of the machinery (stage A: processors may declare
-                resource requirements; stage B: batchers, batches; stage C: the devices of one
-                group; scripts may RE-WIRE: `RewOK`, the envelope `envl`, `EnvOK`);
+                resource requirements; stage B: batchers, batches; stage C: group devices — any
+                number of groups, `GroupOK`; "there is one group only" is the separate predicate
+                `OneGrp`; scripts may RE-WIRE: `RewOK`, the envelope `envl`, `EnvOK`);
                 `S1 w` : the scope of stage S1 (no requirement declared, no batch, no group, no
                 re-wiring script: `NR`).
 * `holdsD`, `dueD`, `expiredD`, `ready` : which device holds a part that wants to leave.
@@ -137,18 +138,28 @@ def cReach : Nat → World → Nat → Nat → Bool
 
 /-- the group records are consistent: the input / output of the group of a group path are a group
 input / group output of that group, the path is registered; a group input has no upstream
-neighbour (it is reached through group paths only); there is one group only: every group path
-leads out through every (that is: the) group output -/
+neighbour (it is reached through group paths only).  (ANY number of groups: the restriction to one
+group is the separate predicate `OneGrp`.) -/
 def GroupOK (w : World) (x : Nat) : Prop :=
-  -- all group paths lead out through the same group output: ONE group (shared by its paths)
-  ((w.dev x).kind = .gpath → ∀ go ∈ List.range w.devs.length, (w.dev go).kind = .goutput →
-    groupOut w x = go) ∧
   ((w.dev x).kind = .gpath →
     groupIn w x < w.devs.length ∧ (w.dev (groupIn w x)).kind = .ginput ∧
     (w.dev (groupIn w x)).group = (w.dev x).group ∧
     groupOut w x < w.devs.length ∧ (w.dev (groupOut w x)).kind = .goutput ∧
     (w.dev (groupOut w x)).group = (w.dev x).group ∧ x ∈ groupPaths w x) ∧
   ((w.dev x).kind = .ginput → (w.dev x).up = [])
+
+/-- all group paths lead out through the same group output: ONE group (shared by its paths) -/
+def OneGrpAt (w : World) (x : Nat) : Prop :=
+  (w.dev x).kind = .gpath → ∀ go ∈ List.range w.devs.length, (w.dev go).kind = .goutput →
+    groupOut w x = go
+
+instance (w : World) (x : Nat) : Decidable (OneGrpAt w x) := by unfold OneGrpAt; infer_instance
+
+/-- **There is one group only**: every group path leads out through every (that is: the) group
+output. -/
+def OneGrp (w : World) : Prop := ∀ x ∈ List.range w.devs.length, OneGrpAt w x
+
+instance (w : World) : Decidable (OneGrp w) := by unfold OneGrp; infer_instance
 
 instance (w : World) (x : Nat) : Decidable (GroupOK w x) := by unfold GroupOK; infer_instance
 
@@ -362,8 +373,9 @@ instance (w : World) : Decidable (SCs w) :=
 
 /-- **The scope of the machinery** (stages A, B, C, and re-wiring): as `S1`, but processors may
 declare resource requirements (without negative amounts; in that case no script uses `register`),
-batchers are allowed, sources may generate batches, parts may be batches, the devices of ONE group
-(any number of group paths sharing one group input and one group output, `GroupOK`) are allowed,
+batchers are allowed, sources may generate batches, parts may be batches, group devices are allowed
+(group paths, inputs, outputs with consistent group records, `GroupOK`; the scopes of the stages add
+`OneGrp` — one group — or the typing by group contexts of `Proofs/C03ZTyp.lean`),
 and scripts may re-wire (`rewire x ups` with `RewOK`; the controller conditions hold for the
 envelope of the wiring and the scripts: `EnvOK`). -/
 def SC (w : World) : Prop := SCs (sw w)
@@ -534,7 +546,10 @@ theorem cReach_eq_gReach {v : World} (hg : NoGrp v) : ∀ f y x, cReach f v y x 
       simp only [this, Bool.false_and]
 
 theorem groupOK_noGrp {v : World} (hg : NoGrp v) (x : Nat) : GroupOK v x :=
-  ⟨fun h => absurd h (hg x).1, fun h => absurd h (hg x).1, fun h => absurd h (hg x).2.1⟩
+  ⟨fun h => absurd h (hg x).1, fun h => absurd h (hg x).2.1⟩
+
+theorem oneGrp_noGrp {v : World} (hg : NoGrp v) : OneGrp v :=
+  fun x _ h => absurd h (hg x).1
 
 theorem noGrp_of_devs {v : World}
     (h : ∀ d ∈ v.devs, d.kind ≠ .gpath ∧ d.kind ≠ .ginput ∧ d.kind ≠ .goutput) : NoGrp v := by
@@ -697,6 +712,33 @@ theorem SC.groupOK {w : World} (h : SC w) {x : Nat} (hx : x < w.devs.length) : G
   unfold GroupOK groupIn groupOut groupPaths at this ⊢
   simp only [sw_dev, sw_devs_length] at this
   exact this
+
+theorem oneGrp_sw (w : World) : OneGrp (sw w) ↔ OneGrp w := by
+  unfold OneGrp OneGrpAt groupOut
+  simp only [sw_dev, sw_devs_length]
+  exact Iff.rfl
+
+theorem OneGrp.of_sw {w w' : World} (h : OneGrp w) (e : sw w' = sw w) : OneGrp w' := by
+  rw [← oneGrp_sw, e, oneGrp_sw]; exact h
+
+/-- `OneGrp` reads the number of devices, kinds, group ids and the group table only -/
+theorem OneGrp.congr {w w' : World} (h : OneGrp w) (hl : w'.devs.length = w.devs.length)
+    (hk : ∀ x, (w'.dev x).kind = (w.dev x).kind) (hg : ∀ x, (w'.dev x).group = (w.dev x).group)
+    (hgr : w'.groups = w.groups) : OneGrp w' := by
+  unfold OneGrp OneGrpAt groupOut at h ⊢
+  simp only [hl, hk, hg, hgr]
+  exact h
+
+/-- `OneGrp` without the bounds on the device indices -/
+theorem OneGrp.out {w : World} (h : OneGrp w) {g y : Nat} (hg : (w.dev g).kind = .gpath)
+    (hy : (w.dev y).kind = .goutput) : groupOut w g = y := by
+  have hgl : g < w.devs.length := by
+    apply Nat.lt_of_not_le; intro hc
+    rw [dev_of_length_le hc] at hg; cases hg
+  have hyl : y < w.devs.length := by
+    apply Nat.lt_of_not_le; intro hc
+    rw [dev_of_length_le hc] at hy; cases hy
+  exact h g (List.mem_range.mpr hgl) hg y (List.mem_range.mpr hyl) hy
 
 theorem SC.aid_mem {w : World} (h : SC w) {x : Nat} (hx : x < w.devs.length) :
     w.dev x ∈ w.devs := dev_mem hx
